@@ -371,35 +371,62 @@ def modified_lines_one_write_per_line(ctx, rid):
         return n
 
     n_sinks = n_line = 0
-    bodies = [f] + p.closures_of(f)
+    # the body family: fmt, its closures, and the helpers of the same module it delegates to (with their closures)
+    bodies, work, depth = [], [(f, 0)], {}
+    while work:
+        g, dpt = work.pop()
+        if g in bodies:
+            continue
+        bodies.append(g)
+        for cl in p.closures_of(g):
+            if cl is not g:
+                work.append((cl, dpt))
+        if dpt < 3:
+            for c in g.calls():
+                h = p.fns.get(c.resolved or "")
+                if h is not None and h.crate == "rustfmt_nightly" and "rustfmt_diff" in h.id and h.kind != "Closure":
+                    work.append((h, dpt + 1))
+    cs = p.callers()
+
+    def closure_driven_by_lines(g):
+        """g is a closure handed to for_each / try_for_each (…) of an iterator over the `lines` field in the body that builds it"""
+        for (src, kind, c) in cs.get(g.id, []):
+            parent = p.fns.get(src)
+            if parent is None:
+                continue
+            for pc in parent.calls():
+                if g.id in pc.refs and pc.name.rsplit("::", 1)[-1] in ("for_each", "try_for_each") and pc.args and pc.args[0][0] != "k":
+                    d = parent.derived_from(pc.args[0][1][0], stop_calls=is_len)
+                    if any(x[2] == "lines" for x in d["fields"]):
+                        return True
+                    for e in pc.args[0][1][1]:
+                        if isinstance(e, (list, tuple)) and e[0] == "f" and e[4] == "lines":
+                            return True
+        return False
+
     for g in bodies:
         for c in g.calls():
-            if not any(c.name.endswith(s) or (c.declared or "").endswith(s) for s in SINK):
+            if not any(c.name.endswith(s_) or (c.declared or "").endswith(s_) for s_ in SINK):
                 continue
             n_sinks += 1
-            data = [a for a in c.args[1:] if a[0] != "k"]
+            data = [a_ for a_ in c.args[1:] if a_[0] != "k"]
             fields, calls = set(), []
-            for a in data:
-                d = g.derived_from(a[1][0], stop_calls=is_len)
+            for a_ in data:
+                d = g.derived_from(a_[1][0], stop_calls=is_len)
                 fields |= {x[2] for x in d["fields"]}
                 calls += d["calls"]
             from_lines = "lines" in fields and any(not is_len(cc) for cc in calls if cc.args and cc.args[0][0] != "k"
                                                    and "lines" in {x[2] for x in g.derived_from(cc.args[0][1][0], stop_calls=is_len)["fields"]}
                                                    ) or ("lines" in fields and not any(is_len(cc) for cc in calls))
-            if g is not f:
-                # a closure body: one write per call; the closure must be driven by an iterator over the lines
-                driven = False
-                for pc in f.calls():
-                    if g.id in pc.refs and pc.name.rsplit("::", 1)[-1] in ("for_each", "try_for_each") and pc.args and pc.args[0][0] != "k":
-                        d = f.derived_from(pc.args[0][1][0], stop_calls=is_len)
-                        driven = any(x[2] == "lines" for x in d["fields"])
-                depth = 1 if driven else 0
+            if g.kind == "Closure":
+                driven = closure_driven_by_lines(g)
+                depth_ = 1 if driven else per_line_loop_depth(g, c.bb)
                 from_lines = True if driven else from_lines
             else:
-                depth = per_line_loop_depth(g, c.bb)
+                depth_ = per_line_loop_depth(g, c.bb)
             if from_lines:
                 n_line += 1
-                ok = depth >= 1
+                ok = depth_ >= 1
                 r.instance(rid, "line text written %s" % ("once per element" if ok else "outside a per-line loop"),
                            "ok" if ok else "violation", c.loc())
                 if not ok:
